@@ -122,6 +122,7 @@ def r_cols_reader(ctx):
             obs.append(Ob("R-COLS", fn, "decode: returns Directory{entries}", ok_res, "returns %s" % tstr(v)[:100], rel(f["loc"])))
         obs.append(Ob("R-OFFRULE", fn, "decode: both arms of the offset rule exist", {"contig", "explicit"} <= seen_offset_arms,
                       "arms seen on success paths: %s" % sorted(seen_offset_arms), rel(f["loc"])))
+    obs += r_decoder_refusals(ctx)
     return obs
 
 
@@ -205,6 +206,58 @@ def _check_len0_reader(fn, p, rd):
         # refuted before the store, or checked on the stored value afterwards: either way no success path keeps a zero length
         ok = knows(p, ("ne", val, 0)) is not None
     return [Ob("R-LEN0", fn, "decode: length stored only after `len == 0` was refuted", ok, "no success path keeps a length that was not tested against 0", rd.loc())]
+
+
+def r_decoder_refusals(ctx):
+    """R-COLS (exact refusal): the directory decoder gives up only because a read failed, because checked arithmetic on decoded values overflowed,
+    or because an entry's length is 0 — any other refusal of its own rejects directories the specification allows"""
+    obs = []
+    props = ("C01", "C03", "C04", "C05", "C06")
+    for f in dir_decoders(ctx):
+        fa = ctx.fa(f)
+        lens = set()
+        for q in fa.paths:
+            for ev_ in q.events:
+                if ev_.kind == "assign" and ev_.d.get("place") is not None:
+                    pl_ = unmut(ev_.d["place"])
+                    if pl_[0] == "f" and pl_[2] == "length":
+                        lens.add(unmut(ev_.d["value"]))
+
+        def allowed(fct):
+            if fct[0] == "eq" and fct[2] == 0:
+                x = unmut(fct[1])
+                return (x[0] == "f" and x[2] == "length") or x in lens or is_call_to(x, lambda s_: s_ in VREAD)
+            if fct[0] == "variant" and fct[3] is False and str(fct[2]).endswith(("Option::Some", "Result::Ok")):
+                x = unmut(fct[1])
+                return x[0] == "bin" and x[1] in ("+", "-", "*")
+            if fct[0] == "variant" and fct[3] is True and str(fct[2]).endswith("Option::None"):
+                x = unmut(fct[1])
+                return x[0] == "bin" and x[1] in ("+", "-", "*")
+            return False
+        n = 0
+        seen = set()
+        for p in fa.paths:
+            if p.exit != "err":
+                continue
+            v = p.value
+            if isinstance(v, tuple) and v and v[0] == "errprop":
+                t = unmut(v[1])
+                if t[0] == "call" or (t[0] == "bin" and t[1] in ("+", "-", "*")):
+                    continue          # a failed read/decompression, or checked arithmetic that overflowed
+            ex = [e for e in p.events if e.kind == "exit"]
+            key = ex[-1].node.get("id") if ex else None
+            why = rejects_because(p, None, allowed)
+            n += 1
+            if (key, why is not None) in seen:
+                continue
+            seen.add((key, why is not None))
+            last = [d for d in p.decisions() if d.d["how"] != "try" and not d.d.get("folded")]
+            obs.append(Ob("R-COLS", f["path"], "decode: refuses only for a zero length or an arithmetic overflow", why is not None,
+                          "refusal justified by %s" % ("the length/overflow test" if why is not None else ("`%s`" % tstr(unmut(last[-1].d["cond"]))[:90] if last else "no test at all")),
+                          ex[-1].loc() if ex else rel(f["loc"]), only=props))
+        if n == 0:
+            obs.append(Ob("R-COLS", f["path"], "decode: refusal exits", False, "the decoder has no refusal of its own (the zero-length rejection is gone)", rel(f["loc"]), only=props))
+    return obs
 
 
 def r_len0_err(ctx):
